@@ -268,27 +268,13 @@ def generate(ctx):
     # the recorded defect (fixed): chunksize=-1 with ready empty while a task runs
     yield "trace", {"dag": {"nodes": [["t", [], []], ["t", [], []], ["t", [0, 1], [0, 1]]], "keys": "str", "style": "legacy"},
                     "req": 2, "nw": 2, "cs": -1, "fails": {}, "choices": [0, 0, 0], "seed": 0, "bias": None}
-    for _ in range(ctx.n(1000, 15000)):
+    for _ in range(ctx.n(1000, 8000)):
         yield "trace", U.gen_trace_input(rng, max_n=rng.choice([4, 7, 10, 14]), fail_p=0.0, missing_p=0.03)
     for _ in range(ctx.n(300, 3000)):
         inp = U.gen_trace_input(rng, max_n=rng.choice([3, 6, 10]), missing_p=0.15)
         yield "start", {"dag": inp["dag"], "req": inp["req"]}
         if rng.random() < 0.1:
             yield "start", {"dag": inp["dag"], "req": []}
-    # exhaustive small spaces: every dag <= 3 nodes + a sample of the 4-node ones (quick) / every dag <= 4
-    # nodes + a sample of the 5-node ones (thorough); the last key and all keys requested; EVERY completion order
-    for n in range(1, 6 if ctx.thorough() else 5):
-        dags = list(_small_dags(n)) if n <= 4 else None
-        if dags is None:
-            allc = list(_small_dags(5))
-            dags = rng.sample(allc, 1500)
-        elif n == 4 and not ctx.thorough():
-            dags = rng.sample(dags, 150)
-        for nodes in dags:
-            dag = {"nodes": nodes, "keys": rng.choice(["str", "tuple", "int"]), "style": rng.choice(["legacy", "spec", "mixed"])}
-            for req in ([n - 1], list(range(n)), rng.choice([[], [[], []], [[], [0]]])):
-                yield "exh", {"dag": dag, "req": req, "nw": rng.choice([1, 2, 3]), "cs": rng.choice([1, 2, -1]),
-                              "fails": {}, "seed": 0, "bias": None, "limit": 300}
     scheds = ["sync", "sync", "threaded", "threaded", "threadpool"]
     for i in range(ctx.n(80, 1200)):
         inp = U.gen_trace_input(rng, max_n=rng.choice([6, 12, 25, 40]))
@@ -304,6 +290,20 @@ def generate(ctx):
         inp["dag"]["keys"] = rng.choice(["str", "tuple"])
         yield "api", {"dag": inp["dag"], "req": inp["req"], "sched": "mp", "nw": 2, "cs": rng.choice([1, 6, -1]),
                       "seed": 0, "optimize": rng.random() < 0.5}
+    # exhaustive small spaces: every dag <= 3 nodes + a sample of the 4-node ones (quick) / every dag <= 4
+    # nodes + a sample of the 5-node ones (thorough); the last key and all keys requested; EVERY completion order
+    for n in range(1, 6 if ctx.thorough() else 5):
+        dags = list(_small_dags(n)) if n <= 4 else None
+        if dags is None:
+            allc = list(_small_dags(5))
+            dags = rng.sample(allc, 300)
+        elif n == 4 and not ctx.thorough():
+            dags = rng.sample(dags, 150)
+        for nodes in dags:
+            dag = {"nodes": nodes, "keys": rng.choice(["str", "tuple", "int"]), "style": rng.choice(["legacy", "spec", "mixed"])}
+            for req in ([n - 1], list(range(n)), rng.choice([[], [[], []], [[], [0]]])):
+                yield "exh", {"dag": dag, "req": req, "nw": rng.choice([1, 2, 3]), "cs": rng.choice([1, 2, -1]),
+                              "fails": {}, "seed": 0, "bias": None, "limit": 300}
 
 
 def search(ctx):
